@@ -268,4 +268,25 @@ def discharge(vc, tier="quick", want_model=None):
             discharge_cvc5(vc, 40 if tier == "quick" else 120)
         except Exception as e:  # cvc5 cannot parse something: stay unknown
             vc.reason = f"cvc5: {e}"
+    elif vc.verdict == "unsat" and tier == "thorough" and os.environ.get("HGV_CROSS", "1") == "1":
+        cross_check(vc)
+    return vc
+
+
+def cross_check(vc, timeout_s=15):
+    """thorough tier: the VC that z3 discharged is handed to cvc5 as well.  `unsat` confirms, `unknown` /
+    timeout says nothing, `sat` is a disagreement between the solvers: the obligation becomes undecided
+    (never a violation)."""
+    probe = VC(vc.name, vc.hyps, vc.goal, getattr(vc, "meta", None))
+    probe.seconds = 0.0
+    probe.backend = ""
+    try:
+        discharge_cvc5(probe, timeout_s)
+        vc.cross = probe.verdict
+    except Exception as e:
+        vc.cross = f"error: {type(e).__name__}"
+    vc.cross_seconds = round(probe.seconds, 3)
+    if vc.cross == "sat":
+        vc.verdict = "unknown"
+        vc.reason = "solver disagreement: z3 unsat, cvc5 sat"
     return vc
